@@ -141,9 +141,10 @@ class Shadow:
 def make_env(cfg):
     import rl4co.envs as E
 
+    kw = dict(_torchrl_mode=True) if cfg.get("torchrl") else {}
     if cfg["env"] == "tsp_kopt":
-        return E.TSPkoptEnv(generator_params=dict(num_loc=cfg["n"], init_sol_type=cfg.get("init", "random")), k_max=cfg.get("k", 2)), False
-    return E.PDPRuinRepairEnv(generator_params=dict(num_loc=cfg["n"], init_sol_type=cfg.get("init", "random"))), True
+        return E.TSPkoptEnv(generator_params=dict(num_loc=cfg["n"], init_sol_type=cfg.get("init", "random")), k_max=cfg.get("k", 2), **kw), False
+    return E.PDPRuinRepairEnv(generator_params=dict(num_loc=cfg["n"], init_sol_type=cfg.get("init", "random")), **kw), True
 
 
 def sampler_case(ctx, case):
@@ -178,7 +179,21 @@ def sampler_case(ctx, case):
         a = env._random_action(td)
         td.set("action", a)
         before = td["rec_current"].clone()
-        td = env.step(td)["next"]
+        if cfg.get("torchrl"):
+            # TorchRL mode: step() returns the state it was given (plus "next"); that state must still be the one it was
+            # before the call - recorded trajectories keep every state they stepped from
+            snap = {k: td[k].clone() for k in td.keys() if k not in ("action", "next") and isinstance(td[k], torch.Tensor)}
+            root = env.step(td)
+            ctx.count("c09_torchrl_steps")
+            for k, v in snap.items():
+                ctx.evaluation()
+                if k in root.keys() and isinstance(root[k], torch.Tensor) and (root[k].shape != v.shape or not torch.equal(root[k], v)):
+                    ctx.violation(dict(env=cfg["env"], k=cfg.get("k"), driver="sampler", q="stepped_state_rewritten", key=str(k)),
+                                  f"TorchRL mode: after env.step the state that was stepped FROM has a different '{k}' (e.g. rec_best of step t+1 next to cost_bsf of step t)", None)
+                    return
+            td = root["next"]
+        else:
+            td = env.step(td)["next"]
         sh.observe(td, a, "step")
         if case.get("to_best_every") and (t + 1) % case["to_best_every"] == 0:
             td = env.step_to_solution(td, td["rec_best"].clone())
